@@ -31,8 +31,8 @@ RULE = ('extrema_exhaustive: every sequence of length 0..L over the alphabet %s 
         '{peaks, troughs, abs_peaks}, exact integer equality with the model, None <-> none. extrema_random: long signals from 6 families '
         '(integer levels with ties/plateaus, sinusoid sums, quantised, scaled, trend) x pad_width in {0..5, 8, 50} x 3 modes x parabolic on/off. '
         'envelope: deterministic sweep over every alphabet sequence of length 5..L with >= 2 extrema (options cycled through parabolic on/off x '
-        '{splrep, pchip, mono_pchip} x {upper, lower, combined} x pad 1..5), plus random short alphabet sequences and long signals (8 families incl. data in small physical units, 3e-13 .. 1e-9, and '
-        'bursts separated by quiet stretches) x the same options x pad 0..5, 8, 50 (8 and 50: outside the quantifier, mechanism-level verdicts only), '
+        '{splrep, pchip, mono_pchip} x {upper, lower, combined} x pad 1..5), plus random short alphabet sequences and long signals (9 families incl. data in small physical units, 3e-13 .. 1e-9, '
+        'bursts separated by quiet stretches, and ripples of a few units in the last place on a large offset) x the same options x pad 0..5, 8, 50 (8 and 50: outside the quantifier, mechanism-level verdicts only), '
         '2-D column input; a block of burst/gap signals under the combined cubic-spline envelope and of small-unit signals with refinement; a further block stores the signal as int64 / int32 (integer levels, integer random walks, quantised sinusoid sums) '
         'or float32 (all families) instead of float64. Each implementation call has a 4 s budget (a re-padding loop that never covers the edges is reported as raises:Timeout, mechanism-level). '
         'Magnitude / envelope tolerance 1e-9*max(1,n)*amplitude for amplitudes below one (homogeneity), 1e-9*max(1,n,|x|) otherwise. '
@@ -182,6 +182,9 @@ class ExtremaSingle(Stream):
             # data in small physical units (round-3 seeded change: curvature below an ABSOLUTE 1e-12 treated as flat -> unrefined)
             {'x': [v * 3e-13 for v in (0, 1, 0.25, 2, 0.5, 1.5, 0.1, 3, 1.2, 2.2, 0.5)], 'pad': 2, 'mode': 'peaks', 'parab': 1, 'family': 'tiny'},
             {'x': [v * 2.5e-15 for v in (0, 1, 0.25, 2, 0.5, 1.5, 0.1, 3, 1.2, 2.2, 0.5)], 'pad': 1, 'mode': 'troughs', 'parab': 1, 'family': 'tiny'},
+            # ripples of 1-3 units in the last place on an offset of 1024: every strict extremum counts (round-2 seeded change: prominence filter)
+            {'x': [1024.0 + 2.2737367544323206e-13 * k for k in (0, 2, 1, 3, 0, 1, 0, 2, 1, 3, 2)], 'pad': 2, 'mode': 'peaks', 'parab': 0, 'family': 'ripple'},
+            {'x': [-4096.0 + 9.094947017729282e-13 * k for k in (0, 2, 1, 3, 0, 1, 0, 2, 1, 3, 2)], 'pad': 1, 'mode': 'troughs', 'parab': 0, 'family': 'ripple'},
         ]
 
     def generate(self, rng, tier):
